@@ -498,11 +498,142 @@ class DriverEngine(Engine):
     no_delete = ("cfg",)
 
     known_sigs: frozenset[str] = frozenset()
+    corpus: Any = None
+    full_ctx: Any = None
 
     def prepare(self, tier: str, seed: int) -> None:
+        from simverif.engines import streamsim
         from simverif.kernel import load_known_findings
 
         self.known_sigs = frozenset(load_known_findings(self.prop))
+        if DriverEngine.corpus is None:
+            import os
+
+            DriverEngine.corpus = streamsim.build_corpus(min(16, os.cpu_count() or 1))
+            _, DriverEngine.full_ctx = streamsim._contexts()
+
+    # -- second workload: the shipped canonicalization patterns on corpus modules ----
+    def _run_real(self, cfg: Stream, sch: Stream, res: RunResult, tr: list[str] | None) -> None:
+        """The real `canonicalize` pattern set (folding, region_dce as post-walk function,
+        exactly as CanonicalizePass builds it) on a module of the filecheck corpus, under
+        a seeded schedule.  Judged: I1 (no stale visit), I4 (return value), I5 (fixpoint).
+        Not judged: whatever the dialect patterns themselves do (they are not the driver);
+        a pattern that raises ends the run without verdict."""
+        from xdsl.parser import Parser
+        from xdsl.transforms.canonicalize import CanonicalizationRewritePattern
+
+        st = res.stats
+        corpus = DriverEngine.corpus
+        ci = cfg.choice(len(corpus.w2))
+        policy = POLICIES[cfg.choice(len(POLICIES))]
+        dup_rate = (0, 6, 3)[cfg.choice(3)]
+        walk_regions_first = bool(cfg.choice(2))
+        walk_reverse = bool(cfg.choice(2))
+        post = not cfg.flag(1, 4)
+        st["workload.real_canonicalize"] += 1
+        try:
+            module = Parser(DriverEngine.full_ctx, corpus.w2[ci]).parse_module()
+        except Exception:  # noqa: BLE001
+            st["real.parse_failed"] += 1
+            res.trace = tr
+            return
+        n0 = sum(1 for _ in module.walk())
+        if n0 > 400:
+            st["real.skipped_too_large"] += 1
+            res.trace = tr
+            return
+        u = Universe()
+        u.register(module)
+        ctx = DriverEngine.full_ctx
+
+        def mk() -> GreedyRewritePatternApplier:
+            return GreedyRewritePatternApplier([CanonicalizationRewritePattern()], ctx=ctx, folding_enabled=True)
+
+        inner = mk()
+
+        class Observer(RewritePattern):
+            def match_and_rewrite(self, op: Operation, rewriter: PatternRewriter, /):
+                if op is not module and (op.parent is None or _top(op) is not module):
+                    raise OracleStop(Violation("I1-stale-visit", "PatternRewriteWalker", wl.pops, f"pattern invoked on {u.nm(op)} ({op.name}) which is not attached to the rewritten module (real canonicalization patterns, corpus chunk {corpus.names[ci]})", "I1-stale-visit"))
+                inner.match_and_rewrite(op, rewriter)
+
+        def attached_ops() -> list[Operation]:
+            return [o for o in module.walk() if o is not module]
+
+        wl = SchedWorklist(sch, policy, dup_rate, attached_ops)
+        wl.max_pops = 3000 * (n0 + 20)
+        wl.max_dups = 4 * n0 + 20
+        walker = PatternRewriteWalker(
+            Observer(), walk_regions_first=walk_regions_first, walk_reverse=walk_reverse, post_walk_func=region_dce if post else None
+        )
+        walker._worklist = wl  # type: ignore[assignment]
+        if tr is not None:
+            tr.append(f"real canonicalize on {corpus.names[ci]} ({n0} ops) regions_first={walk_regions_first} reverse={walk_reverse} post_walk={'region_dce' if post else None} policy={policy} dup=1/{dup_rate}")
+        canon_before = canon(u, module)
+        viol: Violation | None = None
+        ret = None
+        try:
+            ret = walker.rewrite_region(module.body)
+        except OracleStop as e:
+            viol = e.v
+        except _Spin:
+            st["real.not_judged.no_convergence_within_bound"] += 1
+        except RecursionError:
+            st["inconclusive.recursion"] += 1
+        except Exception as e:  # noqa: BLE001
+            lp = wl.last_popped
+            if isinstance(lp, Operation) and lp is not module and (lp.parent is None or _top(lp) is not module):
+                viol = Violation("I1-stale-visit", "PatternRewriteWalker", wl.pops, f"driver popped {u.nm(lp)} ({lp.name}), which is erased/detached, and raised {type(e).__name__} (real canonicalization patterns, corpus chunk {corpus.names[ci]})", "I1-stale-visit")
+            else:
+                st["real.not_judged.pattern_raised"] += 1
+        if viol is None and ret is not None:
+            try:
+                changed = canon(u, module) != canon_before
+            except Exception:  # noqa: BLE001
+                changed = False
+            if changed and ret is not True:
+                viol = Violation("I4-return-value", "PatternRewriteWalker.rewrite_region", wl.pops, f"the IR changed but rewrite_region returned False (real canonicalization patterns, {corpus.names[ci]})", "I4-return-value")
+            if viol is None:
+                applier = mk()
+                for op in list(module.walk()):
+                    if op is module or op.parent is None:
+                        continue
+                    before = snap_tree(u, module)
+                    rw = PatternRewriter(op)
+                    try:
+                        applier.match_and_rewrite(op, rw)
+                    except Exception:  # noqa: BLE001
+                        st["real.not_judged.pattern_raised_in_probe"] += 1
+                        break
+                    if rw.has_done_action or snap_tree(u, module) != before:
+                        viol = Violation(
+                            "I5-fixpoint",
+                            "PatternRewriteWalker.rewrite_region",
+                            wl.pops,
+                            f"after the recursive walk returned, canonicalization still rewrites {u.nm(op)} ({op.name}) of corpus chunk {corpus.names[ci]}",
+                            "I5-fixpoint:real:" + op.name,
+                        )
+                        break
+                else:
+                    st["reach.real_fixpoint_probe_passed"] += 1
+        if tr is not None:
+            tr.append(f"pops={wl.pops} dups={wl.dups} returned={ret}")
+            if viol is not None:
+                tr.append(f"VIOLATION {viol.oracle}: {viol.detail}")
+        if viol is not None and viol.signature in self.known_sigs:
+            res.extra_violations.append(viol)
+            viol = None
+        res.violation = viol
+        res.steps = wl.pops
+        st[f"policy.{policy}"] += 1
+        st["pops"] += wl.pops
+        st["fault.spurious_wakeup"] += wl.dups
+        if ret:
+            st["reach.real_walk_modified_ir"] += 1
+        res.nontrivial = bool(ret)
+        res.fingerprint = zlib.crc32(repr((cfg.steps, sch.steps)).encode())
+        res.schedule_fp = zlib.crc32(repr(wl.order).encode()) ^ (len(wl.order) << 20)
+        res.trace = tr
 
     def selftests(self) -> list[str]:
         return _worklist_selftest()
@@ -579,6 +710,9 @@ class DriverEngine(Engine):
         st = res.stats
         tr: list[str] | None = [] if trace else None
 
+        if cfg.flag(1, 6):
+            self._run_real(cfg, sch, res, tr)
+            return res
         n_ops = 2 + cfg.choice(40)
         use_arith = cfg.flag(1, 4)
         flag_density = (2, 3, 5)[cfg.choice(3)]
@@ -838,9 +972,10 @@ class DriverEngine(Engine):
                 "xdsl.pattern_rewriter.PatternRewriter / GreedyRewritePatternApplier / PatternRewriterListener",
                 "xdsl.folder.Folder (arith), xdsl.transforms.dead_code_elimination (is_trivially_dead, region_dce)",
                 "xdsl.builder.Builder, xdsl.rewriter.Rewriter",
+                "second workload: xdsl.transforms.canonicalize.CanonicalizationRewritePattern with every dialect's canonicalization patterns on filecheck corpus modules",
             ],
             "simulated": ["walker._worklist (SchedWorklist: seeded pop order, spurious wake-ups)"],
-            "stub": ["rewrite patterns are harness patterns (the property quantifies over terminating pattern sets)"],
+            "stub": ["first workload: rewrite patterns are harness patterns (the property quantifies over terminating pattern sets)"],
         }
 
     def evidence_extra(self, stats: Counter[str], tier: str) -> dict[str, Any]:
@@ -852,6 +987,7 @@ class DriverEngine(Engine):
             "runs_by_policy": {k[7:]: v for k, v in sorted(stats.items()) if k.startswith("policy.")},
             "walker_configurations": {k[4:]: v for k, v in sorted(stats.items()) if k.startswith("cfg.")},
             "pattern_matches": {k[6:]: v for k, v in sorted(stats.items()) if k.startswith("match.")},
+            "real_canonicalize_workload": {k: v for k, v in sorted(stats.items()) if k.startswith("real.") or k.startswith("workload.")},
             "total_pops": stats.get("pops", 0),
             "reach_probes": {k[6:]: v for k, v in sorted(stats.items()) if k.startswith("reach.")},
             "inconclusive": {k[13:]: v for k, v in sorted(stats.items()) if k.startswith("inconclusive.")},
